@@ -109,6 +109,8 @@ NumProds(env) ==
   \cup (IF Prof.first THEN {P(Tok("First", "", "", 0, 1), <<Hole(S(N), env)>>)} ELSE {})
   \cup (IF Prof.index THEN {P(Tok("Idx", "", "", 0, 1), <<Hole(V(N), env), Hole(ICONST, env)>>)} ELSE {})
   \cup {P(Tok("Math", f[1], "", f[2], 1), [i \in 1..f[2] |-> Hole(N, env)]) : f \in Prof.math}
+  \* (lambda x: <num>)(<argument of type t>)
+  \cup {P(Tok("Let", Fresh(env), "", 0, 1), <<Hole(t, env), Hole(N, Ext(env, Fresh(env), t))>>) : t \in Prof.letcall}
   \cup (IF Prof.enums THEN {P(Tok("EnumArg", EnumValues[i], "", i - 1, 1), <<Hole(O("A"), env)>>) : i \in DOMAIN EnumValues} ELSE {})
   \cup {P(Tok("UserFn", UserFns[i].id, UserFns[i].style, Len(UserFns[i].params) + (IF UserFns[i].style = "method" THEN 1 ELSE 0), 1),
            (IF UserFns[i].style = "method" THEN <<Hole(O("A"), env)>> ELSE <<>>)
@@ -122,6 +124,7 @@ BoolProds(env) ==
   \cup BoolMeth(env)
   \cup (IF Prof.enums THEN {P(Tok("EnumCmp", EnumValues[i], "", i - 1, 1), <<Hole(O("A"), env)>>) : i \in DOMAIN EnumValues} ELSE {})
   \cup (IF Prof.boolConst THEN {P(Tok("Const", "bool", "", 1, 1), <<>>)} ELSE {})
+  \cup (IF Prof.nonnull THEN {P(Tok("NonNull", "", "", 0, 1), <<Hole(O("R1"), env)>>)} ELSE {})
 
 HasEv(env) == VarsOf(env, EV) # {}
 Available(coll) == GenBackend = "any" \/ Backends[GenBackend].colls[coll].py # ""
@@ -243,8 +246,8 @@ Complete == agenda = <<>>
 (* prefix tokens -> tree *)
 Arity(tk) ==
   CASE tk.k \in {"DS", "Const", "Str", "Var", "Lit"} -> 0
-    [] tk.k \in {"First", "Count", "Sum", "Min", "Max", "Coll", "Single", "Un", "TupIdx", "DictGet", "Meta", "EnumCmp", "EnumArg"} -> 1
-    [] tk.k \in {"Select", "SelectMany", "Where", "Range", "Idx", "Bin", "Cmp"} -> 2
+    [] tk.k \in {"First", "Count", "Sum", "Min", "Max", "Coll", "Single", "Un", "TupIdx", "DictGet", "Meta", "EnumCmp", "EnumArg", "NonNull"} -> 1
+    [] tk.k \in {"Select", "SelectMany", "Where", "Range", "Idx", "Bin", "Cmp", "Let"} -> 2
     [] tk.k \in {"Aggregate", "If"} -> 3
     [] tk.k \in {"And", "Or", "Tuple", "List", "Math", "UserFn"} -> tk.n
     [] tk.k = "Meth" -> 1 + tk.n
@@ -264,5 +267,8 @@ ParseAt(ts, i) ==
 Parse(ts) == ParseAt(ts, 1).t
 
 \* printed once per complete query
-Export == Complete => LET q == Parse(toks) IN PrintT(<<"CASE", ToJson([q |-> q, support |-> Support(q)])>>)
+\* (profiles may ask for certain node kinds: only queries that contain them are exported)
+Wanted == /\ Prof.must \subseteq {toks[i].k : i \in DOMAIN toks}
+          /\ (Prof.mustany = {} \/ \E i \in DOMAIN toks : toks[i].k \in Prof.mustany \/ toks[i].a \in Prof.mustany)
+Export == Complete /\ Wanted => LET q == Parse(toks) IN PrintT(<<"CASE", ToJson([q |-> q, support |-> Support(q)])>>)
 =============================================================================
